@@ -72,3 +72,22 @@ def run(chk):
         if r["outcome"] != "ok" or r["exit"] != 0 or got != want or (r.get("stderr") or "").strip():
             chk.violation("list mode: exit=%s, %s of %s blocks listed, stderr=%r" % (r["exit"], got, want, (r.get("stderr") or "")[:200]),
                           {"concrete": c, "observed": {k: r.get(k) for k in ("outcome", "exit", "list", "stderr")}})
+    # `list` shows every selected block, also when several start on one source line (side by side or nested)
+    shapes = {
+        "side.ts": '/* <block name="a" keep-sorted> */ x /* </block> */ /* <block name="b"> */ y /* </block> */\nconst z = 1;\n'
+                   '// <block name="c">\nz\n// </block>\n',
+        "nest.rs": '/* <block name="o"> */ /* <block name="i" keep-unique> */ /* <block name="j"> */\nv\n/* </block> */ /* </block> */\n/* </block> */\n',
+        "doc.md": '<!-- <block name="m1"> --> text <!-- </block> --> <!-- <block name="m2"> --> text <!-- </block> -->\n',
+        "one.py": '# <block name="p1"><block name="p2"><block name="p3">\nx\n# </block></block></block>\n',
+    }
+    for mode in ("scan", "diff"):
+        diff = None
+        if mode == "diff":
+            diff = "".join("diff --git a/%s b/%s\n--- a/%s\n+++ b/%s\n@@ -1 +1 @@\n-old\n+%s\n" % (f, f, f, f, t.split("\n")[0]) for f, t in shapes.items())
+        r = vlib.run_cli_one({"id": "sameline-" + mode, "files": shapes, "diff": diff, "args": ["list"], "terminal": diff is None})
+        chk.count(nontrivial=True)
+        got = {f: sorted(b["name"] for b in bl) for f, bl in (r.get("list") or {}).items()}
+        want = {"side.ts": ["a", "b", "c"] if mode == "scan" else ["a", "b"], "nest.rs": ["i", "j", "o"], "doc.md": ["m1", "m2"], "one.py": ["p1", "p2", "p3"]}
+        if r["outcome"] != "ok" or r["exit"] != 0 or got != want:
+            chk.violation("list mode (%s), several blocks starting on one line: listed %s, written %s" % (mode, got, want),
+                          {"concrete": {"files": shapes, "diff": diff, "args": ["list"]}, "observed": {k: r.get(k) for k in ("outcome", "exit", "list", "stderr")}})
